@@ -29,7 +29,7 @@ fn timer_in_window(d: Duration, e: u32, slack_ns: u128) -> bool {
 /// produce within the configured limits; 18..=127 = what an NTPv5 server may ask for).
 fn c10_timer_body(version_sel: u8, remote_lo: i8, remote_hi: i8) {
     stubs::symbolic_clock();
-    stubs::symbolic_rng();
+    sym_rng();
     let min: i8 = kani::any();
     let max: i8 = kani::any();
     kani::assume(0 <= min && min <= max && max <= 17);
@@ -51,7 +51,12 @@ fn c10_timer_body(version_sel: u8, remote_lo: i8, remote_hi: i8) {
     sh::set_tries(&mut src, tries);
 
     let (acts, n) = collect_actions(src.handle_timer());
+    check_timer(&src, &acts, n, min, max, desire, remote_min, reach, tries);
+    core::mem::forget(src);
+    core::mem::forget(acts);
+}
 
+fn check_timer(src: &NtpSource<RecCtl>, acts: &[Option<NtpSourceAction>; 3], n: usize, min: i8, max: i8, desire: i8, remote_min: i8, reach: u8, tries: usize) {
     if reach == 0 && tries >= 3 {
         assert!(n == 1 && matches!(acts[0], Some(NtpSourceAction::Reset)), "gives up: no poll is sent");
         return;
@@ -77,7 +82,7 @@ fn c10_timer_body(version_sel: u8, remote_lo: i8, remote_hi: i8) {
     assert!(sent == want, "poll exponent = max(filter desire, server-requested minimum)");
     assert!(sent >= min, "poll exponent not below the configured minimum");
     assert!(sent <= core::cmp::max(max, remote_min), "poll exponent not above max(configured maximum, server request)");
-    assert!(th::poll_raw(sh::state(&src).last_poll_interval) == sent, "the exponent used is remembered");
+    assert!(th::poll_raw(sh::state(src).last_poll_interval) == sent, "the exponent used is remembered");
     // schedule
     if sent <= 17 {
         assert!(timer_in_window(d, sent as u32, 1), "next poll between 1.01 and 1.05 intervals (+-1 ns)");
@@ -93,25 +98,22 @@ fn c10_timer_body(version_sel: u8, remote_lo: i8, remote_hi: i8) {
     kani::cover!(sent <= 17 && d.as_nanos() > (1_049_000_000u128 << (sent as u32)), "upper jitter range reachable");
 }
 
-harness! {
-    #[kani::unwind(12)]
-    #[kani::stub(std::collections::HashMap::insert, crate::stubs::hashmap_insert_noop)]
+nharness! {
+    #[kani::unwind(6)]
     fn c10_timer_v4() {
         c10_timer_body(0, 0, 17);
     }
 }
 
-harness! {
-    #[kani::unwind(12)]
-    #[kani::stub(std::collections::HashMap::insert, crate::stubs::hashmap_insert_noop)]
+nharness! {
+    #[kani::unwind(6)]
     fn c10_timer_v5() {
         c10_timer_body(3, 0, 17);
     }
 }
 
-harness! {
-    #[kani::unwind(12)]
-    #[kani::stub(std::collections::HashMap::insert, crate::stubs::hashmap_insert_noop)]
+nharness! {
+    #[kani::unwind(6)]
     fn c10_timer_upgrade() {
         let sel: u8 = kani::any();
         kani::assume(sel == 1 || sel == 2);
@@ -119,9 +121,8 @@ harness! {
     }
 }
 
-harness! {
-    #[kani::unwind(12)]
-    #[kani::stub(std::collections::HashMap::insert, crate::stubs::hashmap_insert_noop)]
+nharness! {
+    #[kani::unwind(6)]
     fn c10_timer_server_requested() {
         c10_timer_body(3, 18, 127);
     }
@@ -176,7 +177,7 @@ harness! {
 // NTS, a request in flight). Template: header48 + draft-identification field; all header bytes
 // symbolic.
 nharness! {
-    #[kani::unwind(26)]
+    #[kani::unwind(6)]
     #[kani::stub(core::str::from_utf8, crate::common::from_utf8_ascii_model)]
     #[kani::stub(core::slice::ascii::is_ascii, crate::common::is_ascii_model)]
     fn c10_server_req() {
@@ -207,22 +208,28 @@ nharness! {
         let deadline = tokio::time::Instant::from_std(stubs::make_instant(deadline_s, deadline_n));
         sh::set_pending(&mut src, Some((th::ts_from_raw(req_origin), None, deadline)));
 
-        kani::assume((buf[0] >> 3) & 7 == 5);
+        // leap bits 0, version 5; mode (request/response) symbolic; timescale UTC, flag byte 14 zero
+        let mode_response: bool = kani::any();
+        buf[0] = if mode_response { 0x2C } else { 0x2B };
+        buf[12] = 0;
+        buf[14] = 0;
         buf[48] = 0xF5;
         buf[49] = 0xFF;
         buf[50] = 0;
         buf[51] = 27;
-        buf[52..75].copy_from_slice(b"draft-ietf-ntp-ntpv5-09");
+        put_bytes(&mut buf, 52, b"draft-ietf-ntp-ntpv5-09");
         buf[75] = 0;
         if origin_match {
-            buf[24..32].copy_from_slice(&req_origin.to_be_bytes());
+            put_bytes(&mut buf, 24, &req_origin.to_be_bytes());
         }
         let requested = buf[2] as i8;
 
         let (_acts, _n) = collect_actions(src.handle_incoming(&buf[..76], th::ts_from_raw(send_raw), th::ts_from_raw(recv_raw)));
 
         let new = th::poll_raw(sh::state(&src).remote_min_poll_interval);
-        let processed = sh::controller(&src).n_meas > 0;
+        let n_meas = sh::controller(&src).n_meas;
+        core::mem::forget(src);
+        let processed = n_meas > 0;
         if processed {
             assert!(new == core::cmp::max(old, requested), "time response: server minimum becomes max(old, requested)");
         }
